@@ -20,6 +20,7 @@ func init() {
 			"R1": "guards (local + inherited from all call sites) of every non-refresh Update include: cfg.AllowPriorityTakeover == true; Get err == nil; Unmarshal(entry.Value(), &cur) == nil; NOT (cfg.Priority <= cur.Priority) [strict]; revision argument == Revision() of that Get's entry",
 			"R2": "a non-refresh Update is reachable (static calls and go statements) from the function that calls Watch",
 			"R3": "see C16-R1 (AllowPriorityTakeover && Priority <= 0 rejected)",
+			"R4": "see C06-R5: every `return nil` of the acquisition/takeover functions is guarded by the claim-set unit having returned true",
 		},
 	})
 }
@@ -125,6 +126,9 @@ func checkC10(c *Ctx) {
 		}
 		c.check(ok, "R2", "takeover reachable from the watch handling", firstInstr(watchFn), "from %s: %v", shortFn(watchFn), ok)
 	}
+	// R4 (shared with C06-R5): a takeover that did not succeed is reported as a failure, so the
+	// caller keeps following and re-evaluates (the promptness mechanism relies on it)
+	acquisitionResultRule(c, "R4")
 	// R3
 	rejects, _, vf := m.rejectTable()
 	found := false
